@@ -26,6 +26,7 @@
 (*              returns value + 1                                          *)
 (* CtxWBad      VCtxBadWriteOperation: writes undeclared key "u"           *)
 (* Boom         VBoomOperation: raises ValueError                          *)
+(* Abort        VAbortOperation: raises a BaseException (interrupt-class)  *)
 (* SweepSrc     derive.parameter_sweep over FloatValueDataSource,          *)
 (*              variables {t: values sw}, parameters {value: "2 * t"}      *)
 (* SweepMul     sweep over FloatMultiplyOperation, parameters {factor: t}  *)
@@ -44,7 +45,7 @@ WithBogus(n)      == [n EXCEPT !.cfg = [x \in (DOMAIN n.cfg) \cup {"bogus"} |->
                                            IF x \in DOMAIN n.cfg THEN n.cfg[x] ELSE 1]]
 
 SourceKinds  == {"Src", "SrcDef", "Src0", "SweepSrc", "SweepSrcCtx"}
-FloatInKinds == {"Mul", "MulDef", "Add", "Sq", "Probe", "Sink", "CtxW", "CtxWBad", "Boom", "SweepMul"}
+FloatInKinds == {"Mul", "MulDef", "Add", "Sq", "Probe", "Sink", "CtxW", "CtxWBad", "Boom", "Abort", "SweepMul"}
 CollInKinds  == {"SliceMul", "SliceMulDef", "SliceProbe", "Sum"}
 CtxKinds     == {"Rename", "Delete", "Template"}
 ProbeKinds   == {"Probe", "SliceProbe"}
@@ -76,7 +77,7 @@ InT(n) == IF n.kind \in SourceKinds THEN "none"
           ELSE IF n.kind \in CollInKinds THEN "coll" ELSE "any"
 
 \* "same" = the node passes its input type through
-OutT(n) == IF n.kind \in {"Src", "SrcDef", "Src0", "Mul", "MulDef", "Add", "Sq", "CtxW", "CtxWBad", "Boom", "Sum"} THEN "float"
+OutT(n) == IF n.kind \in {"Src", "SrcDef", "Src0", "Mul", "MulDef", "Add", "Sq", "CtxW", "CtxWBad", "Boom", "Abort", "Sum"} THEN "float"
            ELSE IF n.kind \in {"SweepSrc", "SweepSrcCtx", "SweepMul", "SliceMul", "SliceMulDef"} THEN "coll"
            ELSE "same"
 
@@ -104,7 +105,7 @@ Unresolvable(n, ctx) == {p \in ParamNames(n) : ArgSrc(n, p, ctx) = "missing"}
 
 (***************************************************************************)
 (* Apply: effect of a constructible node whose type gate passed and whose  *)
-(* parameters all resolved.  st \in {"ok", "proc", "undeclared"}           *)
+(* parameters all resolved.  st \in {"ok", "proc", "undeclared", "abort"}  *)
 (***************************************************************************)
 Ok(d, c)   == [st |-> "ok", data |-> d, ctx |-> c]
 Bad(s, d, c) == [st |-> s, data |-> d, ctx |-> c]
@@ -131,6 +132,7 @@ Apply(n, data, ctx, arg) ==
       [] n.kind = "CtxW" -> Ok(Float(data.v + 1), Set(ctx, "w", Num(data.v)))
       [] n.kind = "CtxWBad" -> Bad("undeclared", data, ctx)
       [] n.kind = "Boom" -> Bad("proc", data, ctx)
+      [] n.kind = "Abort" -> Bad("abort", data, ctx)
       [] n.kind \in {"SliceMul", "SliceMulDef"} ->
             IF data.items = <<>> THEN Ok(Coll(<<>>), ctx)
             ELSE IF IsNum(arg["factor"])
